@@ -12,11 +12,20 @@
 //! letting it expire, and direct lock / unlock / clear operations on coins:
 //!   pshield / cshield / clock / cunlock / cclear
 //!
+//! C08 (multi-step proposals, "in every step"): the same histories with propose_transfer calls that pay ZIP 320 TEX
+//! addresses (alone, twice, mixed with shielded / transparent recipients; funded from notes, coins or both) - the wallet
+//! answers with a two-step proposal (notes -> ephemeral transparent output -> TEX recipient) of which EVERY step is logged
+//! -, create_proposed_transactions on kept proposals (both transactions are read back: inputs, outputs, fees), the
+//! environment mining both / only the first / neither, locks on notes and coins:
+//!   ptex / ctex / untex / lock
+//!
 //! usage: c01t_driver <out.ndjson> <histories> <ops-per-history> [ironwood]     seeded random histories
 //!        c01t_driver <out.ndjson> scenarios                                     the scenario library
 //!        c01t_driver <out.ndjson> shield <histories> <ops-per-history> [ironwood]   histories with shielding (C08)
 //!        c01t_driver <out.ndjson> shield-scenarios                              the shielding scenario library (C08)
 //!        c01t_driver <out.ndjson> conflict-scenario                             probe of a suspected defect (not registered)
+//!        c01t_driver <out.ndjson> tex-scenarios                                 multi-step (ZIP 320) proposal scenarios (C08)
+//!        c01t_driver <out.ndjson> tex <histories> <ops-per-history> [ironwood]  histories with multi-step proposals (C08)
 use std::convert::Infallible;
 
 use h_wallet::chain::{Pool, TxReq};
@@ -27,7 +36,7 @@ use rand::{Rng, seq::SliceRandom};
 use serde_json::{Value, json};
 use zcash_client_backend::{
     data_api::{
-        CoinbaseFilter, WalletRead,
+        CoinbaseFilter, WalletRead, WalletTest,
         locking::{LockOwner, LockRequest, LockedInputPolicy, OutputLockStore, unlock_proposal_inputs},
         testing::single_output_change_strategy,
         wallet::{
@@ -61,13 +70,17 @@ struct T<'a> {
     kept: Vec<Kept>,
     /// total input value of the last successful shielding proposal (thresholds are tried around it)
     last_sum: u64,
+    /// transfer proposals (possibly multi-step) the driver kept (C08, multi-step part)
+    ktex: Vec<KeptTex>,
+    /// second transactions of ZIP 320 pairs the wallet created, with the uid of their first transaction
+    seconds: Vec<(u32, h_wallet::chain::Created)>,
 }
 
 impl<'a> T<'a> {
     fn new(out: &'a mut NdjsonWriter, seed: u64, ironwood: bool, label: serde_json::Value) -> Self {
         let mut r = Run::new(out, seed, ironwood, label);
         let cw = CoinWorld::new(&mut r.w);
-        let mut t = T { r, cw, kept: vec![], last_sum: 0 };
+        let mut t = T { r, cw, kept: vec![], last_sum: 0, ktex: vec![], seconds: vec![] };
         t.chk();
         t
     }
@@ -1219,6 +1232,911 @@ fn shield_history(t: &mut T, ops: usize) {
     }
 }
 
+
+// -------------------------------------------------------------------------------------------
+// C08: multi-step proposals (ZIP 320: payments to TEX addresses)
+
+type TxProp = Proposal<StandardFeeRule, zcash_client_sqlite::ReceivedNoteId>;
+
+/// the recipient of a requested payment
+#[derive(Clone, Copy, PartialEq, Eq, Debug)]
+enum Rcpt {
+    /// a ZIP 320 TEX address of a foreign key (tag 1, 2)
+    Tex(u8),
+    /// a plain foreign P2PKH address
+    T,
+    /// the foreign party's Sapling address
+    Zs,
+    /// a unified address with the foreign party's Orchard receiver only
+    Ua,
+}
+const RCPTS: [Rcpt; 5] = [Rcpt::Tex(1), Rcpt::Tex(2), Rcpt::T, Rcpt::Zs, Rcpt::Ua];
+
+impl Rcpt {
+    fn code(self) -> (&'static str, u8) {
+        match self {
+            Rcpt::Tex(i) => ("tex", i),
+            Rcpt::T => ("t", 0),
+            Rcpt::Zs => ("zs", 0),
+            Rcpt::Ua => ("ua", 0),
+        }
+    }
+}
+
+fn tex_hash(i: u8) -> [u8; 20] {
+    [0x70 + i; 20]
+}
+
+fn pool_code(p: zcash_protocol::PoolType) -> &'static str {
+    use zcash_protocol::PoolType;
+    match p {
+        PoolType::Transparent => "T",
+        PoolType::Shielded(ShieldedPool::Sapling) => "S",
+        PoolType::Shielded(ShieldedPool::Orchard) => "O",
+        PoolType::Shielded(ShieldedPool::Ironwood) => "I",
+    }
+}
+
+/// a transfer proposal the driver kept: who locked its inputs, and whether the driver will have it created (Sapling
+/// and transparent parts only: the Sapling provers are mocked, Orchard proofs would be real; no coins as inputs: the
+/// change of a transaction with transparent inputs follows the confirmation rule of shielding transactions)
+struct KeptTex {
+    p: TxProp,
+    locker: Option<usize>,
+    creatable: bool,
+}
+
+impl<'a> T<'a> {
+    fn rcpt_addr(&self, r: Rcpt) -> zcash_keys::address::Address {
+        use zcash_keys::address::{Address, UnifiedAddress};
+        match r {
+            Rcpt::Tex(i) => Address::Tex(tex_hash(i)),
+            Rcpt::T => Address::Transparent(self.cw.foreign),
+            Rcpt::Zs => Address::Sapling(self.r.chain.foreign.sapling.default_address().1),
+            Rcpt::Ua => Address::Unified(
+                UnifiedAddress::from_receivers(Some(self.r.chain.foreign.orchard.address_at(0u32, zip32::Scope::External)), None, None).unwrap(),
+            ),
+        }
+    }
+
+    /// harness id of the wallet note (txid, pool, index) - -1: not a note of the harness chain
+    fn note_of(&self, txid: &TxId, pool: Pool, index: u32) -> i64 {
+        let txid: [u8; 32] = *txid.as_ref();
+        self.r
+            .chain
+            .tx_by_id
+            .get(&txid)
+            .and_then(|uid| self.r.chain.notes.iter().find(|(_, ni)| ni.tx == *uid && ni.pool == pool && ni.index == index))
+            .map(|(n, _)| *n as i64)
+            .unwrap_or(-1)
+    }
+
+    fn note_ref(&self, n: u32) -> zcash_client_backend::wallet::OutputRef {
+        use zcash_protocol::PoolType;
+        let ni = &self.r.chain.notes[&n];
+        let txid = self.r.chain.tx_by_id.iter().find(|(_, u)| **u == ni.tx).map(|(t, _)| *t).unwrap();
+        let pool = match ni.pool {
+            Pool::Sapling => ShieldedPool::Sapling,
+            Pool::Orchard => ShieldedPool::Orchard,
+            Pool::Ironwood => ShieldedPool::Ironwood,
+        };
+        zcash_client_backend::wallet::OutputRef::new(TxId::from_bytes(txid), PoolType::Shielded(pool), ni.index)
+    }
+
+    /// the lock columns of the received-note tables (all accounts) and the shielded outputs get_locked_outputs reports
+    /// for account 1, by harness note id (as c08_driver logs them)
+    fn note_locks(&self) -> Value {
+        use zcash_protocol::PoolType;
+        let conn = self.r.w.st.wallet().conn();
+        let mut v = vec![];
+        for pool in [Pool::Sapling, Pool::Orchard, Pool::Ironwood] {
+            let p = pool.table();
+            let idx = if pool == Pool::Sapling { "output_index" } else { "action_index" };
+            let mut stmt = conn
+                .prepare(&format!(
+                    "SELECT t.txid, rn.{idx}, rn.lock_owner, rn.lock_expiry_height
+                     FROM {p}_received_notes rn JOIN transactions t ON t.id_tx = rn.transaction_id
+                     WHERE rn.lock_expiry_height IS NOT NULL OR rn.lock_owner IS NOT NULL"
+                ))
+                .unwrap();
+            let rows: Vec<(Vec<u8>, u32, Option<Vec<u8>>, Option<u32>)> =
+                stmt.query_map([], |r| Ok((r.get(0)?, r.get(1)?, r.get(2)?, r.get(3)?))).unwrap().map(|r| r.unwrap()).collect();
+            for (txid, index, own, exp) in rows {
+                let txid: [u8; 32] = txid.try_into().unwrap();
+                let n = self.note_of(&TxId::from_bytes(txid), pool, index);
+                let o = own.map(|b| if b == vec![1u8; 32] { 0 } else if b == vec![2u8; 32] { 1 } else { 9 }).unwrap_or(-1);
+                v.push(json!([n, o, exp.map(|h| h as i64 - self.r.w.base as i64).unwrap_or(-1)]));
+            }
+        }
+        v.sort_by_key(|x| x[0].as_i64().unwrap());
+        let mut api: Vec<i64> = self
+            .r
+            .w
+            .st
+            .wallet()
+            .get_locked_outputs(self.r.w.acct_ids[0])
+            .unwrap_or_default() // ChainHeightUnknown before the first tip update
+            .iter()
+            .filter_map(|o| {
+                let pool = match o.pool() {
+                    PoolType::Shielded(ShieldedPool::Sapling) => Pool::Sapling,
+                    PoolType::Shielded(ShieldedPool::Orchard) => Pool::Orchard,
+                    PoolType::Shielded(ShieldedPool::Ironwood) => Pool::Ironwood,
+                    PoolType::Transparent => return None,
+                };
+                Some(self.note_of(o.txid(), pool, o.output_index()))
+            })
+            .collect();
+        api.sort();
+        json!({"rows": v, "api": api})
+    }
+
+    /// the shielded projection with the note locks
+    fn post_l(&mut self) -> Value {
+        let mut p = self.r.post();
+        p["locks"] = self.note_locks();
+        p
+    }
+
+    /// every step of a proposal: what it selects (notes and coins by harness id), which outputs of earlier steps it
+    /// consumes, whom it pays, its change and fee
+    fn describe_multi(&self, p: &TxProp) -> Value {
+        use zcash_client_backend::proposal::StepOutputIndex;
+        use zcash_client_backend::wallet::Note;
+        let net = self.r.w.net;
+        let known: Vec<(Rcpt, zcash_address::ZcashAddress)> = RCPTS.iter().map(|r| (*r, self.rcpt_addr(*r).to_zcash_address(&net))).collect();
+        let all: Vec<_> = p.steps().iter().collect();
+        let steps: Vec<Value> = all
+            .iter()
+            .map(|s| {
+                let mut notes = vec![];
+                if let Some(si) = s.shielded_inputs() {
+                    for rn in si.notes().iter() {
+                        let (pool, v) = match rn.note() {
+                            Note::Sapling(n) => (Pool::Sapling, n.value().inner()),
+                            Note::Orchard { note, pool } => (if matches!(pool, orchard::ValuePool::Ironwood) { Pool::Ironwood } else { Pool::Orchard }, note.value().inner()),
+                        };
+                        notes.push(json!([self.note_of(rn.txid(), pool, rn.output_index() as u32), v, pool.code()]));
+                    }
+                }
+                let coins: Vec<Value> = s
+                    .transparent_inputs()
+                    .iter()
+                    .map(|u| {
+                        let a: [u8; 32] = *u.outpoint().hash();
+                        json!([self.cw.by_outpoint.get(&(a, u.outpoint().n())).map(|c| *c as i64).unwrap_or(-1), u64::from(u.value())])
+                    })
+                    .collect();
+                // the value of a consumed output is read off the step that creates it (-1: there is no such output)
+                let prior: Vec<Value> = s
+                    .prior_step_inputs()
+                    .iter()
+                    .map(|so| {
+                        let src = all.get(so.step_index());
+                        let (kind, idx, v): (&str, usize, i64) = match so.output_index() {
+                            StepOutputIndex::Payment(i) => (
+                                "p",
+                                i,
+                                src.and_then(|x| x.transaction_request().payments().get(&i)).and_then(|pm| pm.amount()).map(|a| u64::from(a) as i64).unwrap_or(-1),
+                            ),
+                            StepOutputIndex::Change(i) => ("c", i, src.and_then(|x| x.balance().proposed_change().get(i)).map(|c| u64::from(c.value()) as i64).unwrap_or(-1)),
+                        };
+                        json!([so.step_index(), kind, idx, v])
+                    })
+                    .collect();
+                let pays: Vec<Value> = s
+                    .transaction_request()
+                    .payments()
+                    .iter()
+                    .map(|(i, pm)| {
+                        let (k, ad) = known.iter().find(|(_, z)| z == pm.recipient_address()).map(|(r, _)| r.code()).unwrap_or(("other", 0));
+                        json!({"i": i, "k": k, "ad": ad, "v": pm.amount().map(u64::from).unwrap_or(0),
+                               "pool": s.payment_pools().get(i).map(|p| pool_code(*p)).unwrap_or("none")})
+                    })
+                    .collect();
+                let change: Vec<Value> = s
+                    .balance()
+                    .proposed_change()
+                    .iter()
+                    .map(|c| json!({"v": u64::from(c.value()), "pool": pool_code(c.output_pool()), "eph": c.is_ephemeral()}))
+                    .collect();
+                json!({
+                    "notes": notes, "coins": coins, "prior": prior, "pays": pays, "change": change,
+                    "fee": u64::from(s.balance().fee_required()),
+                    "anchor": s.anchor_height().map(|h| self.r.w.rel(u32::from(h))).unwrap_or(-1),
+                    "shielding": s.is_shielding(),
+                })
+            })
+            .collect();
+        json!({"target": self.r.w.rel(u32::from(BlockHeight::from(p.min_target_height()))), "steps": steps})
+    }
+
+    /// propose_transfer for account 1 paying `pays` (in request order), funded from the shielded `pools` and - `tp` 1: any
+    /// transparent address of the account, 2: the listed addresses `ads` - its coins
+    #[allow(clippy::too_many_arguments)]
+    fn ptex(&mut self, pays: &[(Rcpt, u64)], policy: (u32, u32, bool), pools: &[ShieldedPool], tp: u32, ads: &[u32], lock: Option<(usize, u32)>, lpol: u32, keep: bool) -> bool {
+        let (trusted, untrusted, zc) = policy;
+        let sel_policy = match lpol {
+            1 => LockedInputPolicy::PreferUnlocked(NonEmptyBTreeSet::singleton(owner(0))),
+            2 => LockedInputPolicy::PreferLocked(NonEmptyBTreeSet::singleton(owner(0))),
+            _ => LockedInputPolicy::Exclude,
+        };
+        let admitted: Vec<i64> = if lpol >= 1 { vec![0] } else { vec![] };
+        let net = self.r.w.net;
+        let id = self.r.w.acct_ids[0];
+        let payments: Vec<zip321::Payment> = pays
+            .iter()
+            .map(|(r, v)| zip321::Payment::without_memo(self.rcpt_addr(*r).to_zcash_address(&net), Zatoshis::from_u64(*v).unwrap()))
+            .collect();
+        let req = zip321::TransactionRequest::new(payments).expect("harness: a valid request");
+        let mut spend = SpendPolicy::shielded_pools(pools.iter().copied()).with_locked_input_policy(sel_policy);
+        if tp == 1 {
+            spend = spend.with_transparent(TransparentSpendPolicy::any_account_addr());
+        } else if tp == 2 {
+            spend = spend.with_transparent(TransparentSpendPolicy::from_addresses(
+                nonempty::NonEmpty::from_vec(ads.iter().map(|a| self.cw.addrs[(*a - 1) as usize]).collect()).expect("non-empty list"),
+            ));
+        }
+        let st = &mut self.r.w.st;
+        let res: Result<Result<TxProp, String>, String> = guarded(move || {
+            let selector = GreedyInputSelector::new();
+            let change = single_output_change_strategy(StandardFeeRule::Zip317, None, ShieldedPool::Sapling);
+            propose_transfer::<_, _, _, _, Infallible>(
+                st.wallet_mut(),
+                &net,
+                id,
+                &selector,
+                &change,
+                req,
+                ConfirmationsPolicy::new_unchecked(trusted, untrusted, zc),
+                &spend,
+                lock.map(|(o, k)| LockRequest::new(owner(o), k)),
+                None,
+            )
+            .map_err(|e| format!("{e:?}"))
+        });
+        let (c, e) = class(&res);
+        let cl = if c == "err" {
+            if e.contains("InsufficientFunds") { "insufficient" }
+            else if e.contains("InputsLocked") || e.contains("LockFailure") { "inputs-locked" }
+            else if e.contains("ScanRequired") || e.contains("SyncRequired") { "scan-required" }
+            else if e.contains("PaymentPoolsMismatch") { "pools-mismatch" }
+            else { "other" }
+        } else {
+            c
+        };
+        let prop = match &res { Ok(Ok(p)) => self.describe_multi(p), _ => json!({"target": -1, "steps": []}) };
+        let post = self.post_l();
+        let coins = self.cw.project(&self.r.w);
+        self.r.out.emit(&json!({
+            "a": "ptex", "res": cl, "err": e, "acct": 1,
+            "pays": pays.iter().map(|(r, v)| json!({"k": r.code().0, "ad": r.code().1, "v": v})).collect::<Vec<_>>(),
+            "trusted": trusted, "untrusted": untrusted, "zc": zc,
+            "pools": pools.iter().map(|p| pool_code(zcash_protocol::PoolType::Shielded(*p))).collect::<Vec<_>>(),
+            "tp": tp, "listed": tp == 2, "addrs": if tp == 2 { ads } else { &[] },
+            "lock": lock.map(|(o, k)| json!([o as i64, k])).unwrap_or(json!([-1, 0])), "admitted": admitted, "prefer_locked": lpol == 2,
+            "p": prop, "post": post, "coins": coins,
+        }));
+        self.r.aborted |= c == "panic";
+        if let Ok(Ok(p)) = res {
+            if keep {
+                let st = &prop["steps"];
+                let only = |key: &str, f: &dyn Fn(&Value) -> bool| st.as_array().unwrap().iter().all(|s| s[key].as_array().unwrap().iter().all(|x| f(x)));
+                let creatable = only("notes", &|n| n[2] == "S" && n[0].as_i64().unwrap() > 0)
+                    && only("coins", &|_| false)
+                    && only("pays", &|x| x["pool"] == "T" || x["pool"] == "S")
+                    && only("change", &|x| x["pool"] == "T" || x["pool"] == "S");
+                self.ktex.push(KeptTex { p, locker: lock.map(|(o, _)| o), creatable });
+                if self.ktex.len() > 5 {
+                    self.ktex.remove(0);
+                }
+            }
+            true
+        } else {
+            false
+        }
+    }
+
+    /// what a transparent output of a created transaction pays: a TEX / plain foreign recipient of the driver, an
+    /// ephemeral address of the wallet, one of the wallet's ordinary addresses, or something else
+    fn vout_kind(&self, o: &zcash_transparent::bundle::TxOut, eph: &[zcash_transparent::address::TransparentAddress]) -> (&'static str, u8) {
+        use zcash_transparent::address::TransparentAddress;
+        match o.recipient_address() {
+            Some(a) if a == TransparentAddress::PublicKeyHash(tex_hash(1)) => ("tex", 1),
+            Some(a) if a == TransparentAddress::PublicKeyHash(tex_hash(2)) => ("tex", 2),
+            Some(a) if a == self.cw.foreign => ("t", 0),
+            Some(a) if eph.contains(&a) => ("eph", 0),
+            Some(a) if self.cw.addrs.contains(&a) => ("own", 0),
+            _ => ("other", 0),
+        }
+    }
+
+    /// create_proposed_transactions on kept proposal `i` (possibly stale by now), signed with the key of account 1; every
+    /// transaction the wallet stored is read back: its shielded inputs (nullifiers against the step's notes) and outputs
+    /// (trial decryption), its transparent inputs (which output of which transaction each consumes, and what that output
+    /// really is) and outputs. expiry: None = the builder's default, Some(0) = never, Some(h) absolute
+    fn ctex(&mut self, i: usize, expiry: Option<u32>) -> Vec<u32> {
+        if i >= self.ktex.len() {
+            return vec![];
+        }
+        let k = self.ktex.remove(i);
+        let desc = self.describe_multi(&k.p);
+        let anchor_abs = k.p.steps().first().anchor_height().map(u32::from).unwrap_or(self.r.chain.base);
+        let expreq: i64 = match expiry { None => -1, Some(0) => -100, Some(h) => self.r.w.rel(h) };
+        let usk = self.r.w.st.test_account().unwrap().usk().clone();
+        let net = self.r.w.net;
+        let p = k.p;
+        let st = &mut self.r.w.st;
+        let res: Result<Result<Vec<TxId>, String>, String> = guarded(|| {
+            create_proposed_transactions::<_, _, Infallible, _, Infallible, _>(
+                st.wallet_mut(),
+                &net,
+                &sapling::prover::mock::MockSpendProver,
+                &sapling::prover::mock::MockOutputProver,
+                &SpendingKeys::from_unified_spending_key(usk),
+                OvkPolicy::Sender,
+                &p,
+                expiry.map(BlockHeight::from),
+            )
+            .map(|ids| ids.into_iter().collect())
+            .map_err(|e| format!("{e:?}"))
+        });
+        let (c, e) = class(&res);
+        let mut txs = vec![];
+        let mut uids = vec![];
+        if let Ok(Ok(ids)) = &res {
+            let eph: Vec<zcash_transparent::address::TransparentAddress> = self
+                .r
+                .w
+                .st
+                .wallet()
+                .get_known_ephemeral_addresses(self.r.w.acct_ids[0], None)
+                .expect("harness: ephemeral addresses")
+                .into_iter()
+                .map(|(a, _)| a)
+                .collect();
+            // the transactions of this call, by txid: (harness uid, the transaction)
+            let mut here: Vec<([u8; 32], u32, zcash_primitives::transaction::Transaction)> = vec![];
+            for (si, id) in ids.iter().enumerate() {
+                let tx = self.r.w.st.wallet().get_transaction(*id).unwrap().expect("harness: created transaction not retrievable");
+                let step = &desc["steps"][si];
+                let ids_of = |key: &str| -> Vec<u32> {
+                    step[key].as_array().map(|a| a.iter().map(|x| x[0].as_i64().unwrap().max(0) as u32).collect()).unwrap_or_default()
+                };
+                let cr = self.r.chain.register_created(&tx, &ids_of("notes"), anchor_abs);
+                let txid: [u8; 32] = *tx.txid().as_ref();
+                let (vin, vout): (Vec<Value>, Vec<Value>) = match tx.transparent_bundle() {
+                    None => (vec![], vec![]),
+                    Some(b) => (
+                        b.vin
+                            .iter()
+                            .map(|i| {
+                                let h: [u8; 32] = *i.prevout().hash();
+                                let n = i.prevout().n();
+                                let coin = self.cw.by_outpoint.get(&(h, n)).map(|c| *c as i64).unwrap_or(-1);
+                                // an output of a transaction created by this very call: what is it, really?
+                                let (t, kind, v) = match here.iter().find(|(x, _, _)| *x == h) {
+                                    Some((_, uid, ftx)) => match ftx.transparent_bundle().and_then(|fb| fb.vout.get(n as usize)) {
+                                        Some(o) => (*uid as i64, self.vout_kind(o, &eph).0, u64::from(o.value()) as i64),
+                                        None => (*uid as i64, "none", -1),
+                                    },
+                                    None => (-1, if coin >= 0 { "coin" } else { "none" }, if coin >= 0 { self.cw.coins[&(coin as u32)].value as i64 } else { -1 }),
+                                };
+                                json!({"t": t, "n": n, "c": coin, "k": kind, "v": v})
+                            })
+                            .collect(),
+                        b.vout
+                            .iter()
+                            .enumerate()
+                            .map(|(n, o)| {
+                                let (kind, ad) = self.vout_kind(o, &eph);
+                                if kind == "eph" {
+                                    self.cw.ephemeral.insert((txid, n as u32));
+                                }
+                                json!({"k": kind, "ad": ad, "v": u64::from(o.value())})
+                            })
+                            .collect(),
+                    ),
+                };
+                let ct = self.cw.register_shared(&tx, cr.abs.uid, &ids_of("coins"));
+                txs.push(json!({
+                    "t": cr.abs.uid,
+                    "exp": if cr.expiry == 0 { -100 } else { self.r.w.rel(cr.expiry) },
+                    "outs": cr.abs.outs.iter().map(|o| json!({"n": o.note, "pool": o.pool.code(), "v": o.value, "acct": o.acct, "int": o.internal})).collect::<Vec<_>>(),
+                    "spends": cr.abs.spends,
+                    "nf_missing": cr.nf_missing, "nf_extra": cr.nf_extra,
+                    "nsap": tx.sapling_bundle().map(|b| b.shielded_spends().len()).unwrap_or(0),
+                    "nact": tx.orchard_bundle().map(|b| b.actions().len()).unwrap_or(0) + tx.ironwood_bundle().map(|b| b.actions().len()).unwrap_or(0),
+                    "vin": vin, "vout": vout,
+                }));
+                uids.push(ct);
+                if si == 0 {
+                    self.r.created.push(cr.clone());
+                } else {
+                    self.seconds.push((here[0].1, cr.clone()));
+                }
+                here.push((txid, cr.abs.uid, tx));
+            }
+        }
+        let post = self.post_l();
+        let coins = self.cw.project(&self.r.w);
+        self.r.out.emit(&json!({
+            "a": "ctex", "res": c, "err": e, "target": desc["target"], "expreq": expreq, "steps": desc["steps"], "txs": txs,
+            "post": post, "coins": coins,
+        }));
+        self.r.aborted |= c == "panic";
+        uids
+    }
+
+    /// unlock_proposal_inputs of kept transfer proposal `i` under owner `by`
+    fn untex(&mut self, i: usize, by: usize) {
+        if i >= self.ktex.len() {
+            return;
+        }
+        let k = self.ktex.remove(i);
+        let desc = self.describe_multi(&k.p);
+        let ids = |key: &str| -> Vec<i64> {
+            desc["steps"].as_array().unwrap().iter().flat_map(|s| s[key].as_array().unwrap().iter().map(|x| x[0].as_i64().unwrap()).collect::<Vec<_>>()).collect()
+        };
+        let p = k.p;
+        let st = &mut self.r.w.st;
+        let res = guarded(move || unlock_proposal_inputs(st.wallet_mut(), &p, owner(by)).map_err(|e| format!("{e:?}")));
+        let (c, e) = class(&res);
+        let post = self.post_l();
+        let coins = self.cw.project(&self.r.w);
+        self.r.out.emit(&json!({"a": "untex", "res": c, "err": e, "owner": by as i64, "notes": ids("notes"), "cs": ids("coins"), "post": post, "coins": coins}));
+        self.r.aborted |= c == "panic";
+    }
+
+    /// lock_outputs on wallet notes directly (all or nothing)
+    fn lock_notes(&mut self, picks: &[u32], o: usize, exp: u32) {
+        let refs: Vec<_> = picks.iter().map(|n| self.note_ref(*n)).collect();
+        let st = &mut self.r.w.st;
+        let res = guarded(move || st.wallet_mut().lock_outputs(&refs, owner(o), BlockHeight::from(exp)).map_err(|e| format!("{e:?}")));
+        let (c, e) = class(&res);
+        let cl = if c == "err" && e.contains("LockFailure") { "lock-failure" } else { c };
+        let post = self.post_l();
+        self.r.out.emit(&json!({"a": "lock", "res": cl, "err": e, "owner": o as i64, "exp": self.r.w.rel(exp), "notes": picks, "post": post}));
+        self.r.aborted |= c == "panic";
+        self.chk();
+    }
+
+    fn chain_height_of(&self, uid: u32) -> Option<u32> {
+        self.r.chain.blocks.iter().find(|(_, b)| b.txs.iter().any(|t| t.uid == uid)).map(|(h, _)| *h)
+    }
+
+    /// a second transaction of a ZIP 320 pair that the next block could mine: its first transaction is on the chain (or
+    /// is `with`, mined just before it in the same block), it is not, and it has not expired
+    fn pick_second(&mut self, with: Option<u32>) -> Option<h_wallet::chain::Created> {
+        let next = self.r.chain.top() + 1;
+        let c: Vec<h_wallet::chain::Created> = self
+            .seconds
+            .iter()
+            .filter(|(first, c)| (self.chain_height_of(*first).is_some() || with == Some(*first)) && self.chain_height_of(c.abs.uid).is_none() && (c.expiry == 0 || next <= c.expiry))
+            .map(|(_, c)| c.clone())
+            .collect();
+        if c.is_empty() { None } else { Some(c[self.r.rng.gen_range(0..c.len())].clone()) }
+    }
+
+    /// the environment tells the wallet that created transaction `ct` (coin-world id) was mined where the chain has it
+    /// (a status update), unless the wallet has another height on record
+    fn report_mined(&mut self, ct: u32) {
+        let Some(h) = self.on_chain(ct) else { return };
+        if self.r.w.tip().map(|tp| h > tp).unwrap_or(true) {
+            self.tip_top();
+        }
+        match self.cw.wallet_mined(&self.r.w, ct) {
+            Some(Some(m)) if m != h => {}
+            _ => { self.status(ct, h); }
+        }
+    }
+
+    /// the shielded balance the wallet reports for account 1
+    fn shielded_balance(&self) -> u64 {
+        let p = self.r.w.project(&self.r.chain);
+        ["S", "O", "I"].iter().map(|k| p["bal"][0][*k][0].as_u64().unwrap_or(0)).sum()
+    }
+}
+
+const SAP: [ShieldedPool; 1] = [ShieldedPool::Sapling];
+const ALL_POOLS: [ShieldedPool; 3] = [ShieldedPool::Sapling, ShieldedPool::Orchard, ShieldedPool::Ironwood];
+const P11: (u32, u32, bool) = (1, 1, false);
+
+fn tex_scenarios(out: &mut NdjsonWriter) {
+    let mut id = 8000u64;
+
+    // A: the whole flow. Propose to a TEX recipient, create both transactions, the notes are out of the ledger and
+    // ineligible; the first is mined (scanned), the second (status update); propose again out of the change
+    for variant in 0..4u32 {
+        id += 1;
+        let mut t = T::new(out, id, variant == 3, json!(format!("xA flow v{variant}")));
+        t.prelude(4);
+        t.recv(Pool::Sapling, 100_000);
+        t.recv(Pool::Sapling, 60_000);
+        t.catch_up();
+        t.ptex(&[(Rcpt::Tex(1), 50_000)], P11, &SAP, 0, &[], None, 0, true);
+        t.ptex(&[(Rcpt::Tex(1), 50_000)], P11, &SAP, 0, &[], None, 0, true); // the twin: stale once the first is created
+        let cts = t.ctex(0, None);
+        t.ptex(&[(Rcpt::Tex(2), 50_000)], P11, &SAP, 0, &[], None, 0, false); // funded by what is left
+        t.ptex(&[(Rcpt::Tex(2), 120_000)], P11, &SAP, 0, &[], None, 0, false); // too much now
+        t.ctex(0, None); // the stale twin: whatever the wallet answers, the ledger law holds
+        if cts.len() == 2 {
+            match variant {
+                0 | 3 => {
+                    // first mined and scanned, then the second mined, reported by a status update
+                    t.mine_created();
+                    t.catch_up();
+                    if let Some(c2) = t.pick_second(None) {
+                        t.r.block(&[], &[(c2.abs.clone(), c2.ctx.clone())], true);
+                        t.chk();
+                        t.report_mined(SHARED_BASE + c2.abs.uid);
+                    }
+                    t.catch_up();
+                }
+                1 => {
+                    // both in one block; the wallet hears of the second first, then of the first, scans later
+                    if let Some(c1) = t.r.pick_created() {
+                        let c2 = t.pick_second(Some(c1.abs.uid)).expect("harness: the pair's second transaction");
+                        t.r.block(&[], &[(c1.abs.clone(), c1.ctx.clone()), (c2.abs.clone(), c2.ctx.clone())], true);
+                        t.chk();
+                        t.report_mined(SHARED_BASE + c2.abs.uid);
+                        t.report_mined(SHARED_BASE + c1.abs.uid);
+                        t.ptex(&[(Rcpt::Tex(2), 20_000)], P11, &SAP, 0, &[], None, 0, false);
+                        t.catch_up();
+                    }
+                }
+                _ => {
+                    // only the first is ever mined; the second expires
+                    t.mine_created();
+                    t.catch_up();
+                    t.walk(42);
+                }
+            }
+        }
+        t.ptex(&[(Rcpt::Tex(2), 20_000)], P11, &SAP, 0, &[], None, 0, true);
+        t.ptex(&[(Rcpt::Tex(2), 20_000)], (1, 3, false), &SAP, 0, &[], None, 0, false);
+        // a rewind below the block that mined the first transaction: pending again
+        let top = t.r.chain.top();
+        t.trunc(top.saturating_sub(3).max(t.r.chain.base + 5), true);
+        t.ptex(&[(Rcpt::Tex(2), 20_000)], P11, &SAP, 0, &[], None, 0, false);
+        t.walk(3);
+        t.r.catch_up_and_fresh();
+        t.chk();
+    }
+
+    // B: requests. One / two TEX recipients, TEX with a shielded or a plain transparent recipient (TEX first / last), plain
+    // requests; amounts tiny / a fraction / nearly everything / too much; every shielded pool or Sapling only
+    for ironwood in [false, true] {
+        id += 1;
+        let mut t = T::new(out, id, ironwood, json!(format!("xB requests ironwood={ironwood}")));
+        t.prelude(4);
+        for v in [90_000u64, 70_000, 40_000] {
+            t.recv(Pool::Sapling, v);
+        }
+        t.recv(Pool::Orchard, 80_000);
+        t.catch_up();
+        let bal = t.shielded_balance();
+        for pools in [&ALL_POOLS[..], &SAP[..]] {
+            for amount in [1_000u64, 12_000, bal / 4, bal / 2, bal - 40_000, bal - 20_001, bal - 14_999, bal + 1] {
+                t.ptex(&[(Rcpt::Tex(1), amount)], P11, pools, 0, &[], None, 0, false);
+            }
+            t.ptex(&[(Rcpt::Tex(1), 30_000), (Rcpt::Tex(2), 45_000)], P11, pools, 0, &[], None, 0, false);
+            t.ptex(&[(Rcpt::Tex(1), 30_000), (Rcpt::Zs, 45_000)], P11, pools, 0, &[], None, 0, false);
+            t.ptex(&[(Rcpt::Tex(2), 30_000), (Rcpt::T, 25_000)], P11, pools, 0, &[], None, 0, false);
+            t.ptex(&[(Rcpt::Tex(1), 10_000), (Rcpt::Tex(2), 10_000), (Rcpt::Zs, 10_000)], P11, pools, 0, &[], None, 0, false);
+            // a TEX recipient behind another one: the payment indices of the second step do not start at 0 (refused)
+            t.ptex(&[(Rcpt::Zs, 45_000), (Rcpt::Tex(1), 30_000)], P11, pools, 0, &[], None, 0, false);
+            t.ptex(&[(Rcpt::T, 45_000), (Rcpt::Tex(1), 30_000)], P11, pools, 0, &[], None, 0, false);
+            t.ptex(&[(Rcpt::Zs, 45_000)], P11, pools, 0, &[], None, 0, false);
+            t.ptex(&[(Rcpt::T, 45_000)], P11, pools, 0, &[], None, 0, false);
+            t.ptex(&[(Rcpt::Ua, 45_000)], P11, pools, 0, &[], None, 0, false);
+            t.ptex(&[(Rcpt::Tex(1), 30_000), (Rcpt::Ua, 45_000)], P11, pools, 0, &[], None, 0, false);
+        }
+        // confirmations: a note mined at the tip needs its confirmations for a TEX payment as for any other
+        t.recv(Pool::Sapling, 300_000);
+        t.catch_up();
+        for pol in [P11, (1, 2, false), (2, 5, false), (3, 10, false)] {
+            t.ptex(&[(Rcpt::Tex(1), bal + 100_000)], pol, &ALL_POOLS, 0, &[], None, 0, false);
+        }
+        t.walk(2);
+        t.catch_up();
+        t.ptex(&[(Rcpt::Tex(1), bal + 100_000)], (1, 2, false), &ALL_POOLS, 0, &[], None, 0, false);
+    }
+
+    // C: locks. A TEX proposal locks the notes of its first step; another owner gets other notes or nothing; a selector
+    // admitting owner 0 draws through; wrong-owner unlock; creating releases (or keeps) the locks
+    {
+        id += 1;
+        let mut t = T::new(out, id, false, json!("xC locks"));
+        t.prelude(4);
+        let mut ns = vec![];
+        for v in [90_000u64, 70_000, 50_000] {
+            ns.push(t.r.recv(Pool::Sapling, v, false));
+            t.chk();
+        }
+        t.catch_up();
+        t.ptex(&[(Rcpt::Tex(1), 100_000)], P11, &SAP, 0, &[], Some((0, 3)), 0, true); // owner 0 locks two notes until target + 3
+        t.ptex(&[(Rcpt::Tex(2), 100_000)], P11, &SAP, 0, &[], Some((1, 1)), 0, false); // not enough left for owner 1
+        t.ptex(&[(Rcpt::Tex(2), 20_000)], P11, &SAP, 0, &[], Some((1, 1)), 0, true); // ... but for this
+        t.ptex(&[(Rcpt::Tex(2), 20_000)], P11, &SAP, 0, &[], None, 0, false); // nothing unlocked left
+        t.ptex(&[(Rcpt::Tex(2), 20_000)], P11, &SAP, 0, &[], None, 1, false); // admits owner 0: draws through its locks
+        t.ptex(&[(Rcpt::Tex(2), 20_000)], P11, &SAP, 0, &[], Some((1, 5)), 2, false); // ... and cannot lock them for owner 1
+        t.ptex(&[(Rcpt::Tex(2), 20_000)], P11, &SAP, 0, &[], Some((0, 5)), 2, false); // owner 0 itself can
+        t.walk(2); // owner 1's lock (target + 1) has expired
+        t.catch_up();
+        t.ptex(&[(Rcpt::Tex(2), 20_000)], P11, &SAP, 0, &[], None, 0, false);
+        t.untex(1, 0); // owner 0 cannot release owner 1's (expired) lock
+        let tip = t.wtip();
+        t.lock_notes(&[ns[2]], 1, tip + 4);
+        t.lock_notes(&[ns[2], ns[0]], 0, tip + 4); // all or nothing
+        t.ctex(0, None); // creating through the locks: released or kept, the notes stay out either way
+        t.ptex(&[(Rcpt::Tex(2), 20_000)], P11, &SAP, 0, &[], None, 1, false);
+        t.cclear(1);
+        t.ptex(&[(Rcpt::Tex(2), 20_000)], P11, &SAP, 0, &[], None, 0, false);
+    }
+
+    // D: expiry. A pair created with an early expiry: the tip walks past it, the notes are back; with the default expiry;
+    // never expiring
+    {
+        id += 1;
+        let mut t = T::new(out, id, false, json!("xD expiry"));
+        t.prelude(4);
+        t.recv(Pool::Sapling, 100_000);
+        t.catch_up();
+        t.ptex(&[(Rcpt::Tex(1), 40_000)], P11, &SAP, 0, &[], None, 0, true);
+        let tip = t.wtip();
+        t.ctex(0, Some(tip + 3));
+        t.ptex(&[(Rcpt::Tex(1), 40_000)], P11, &SAP, 0, &[], None, 0, false);
+        t.walk(4);
+        t.ptex(&[(Rcpt::Tex(1), 40_000)], P11, &SAP, 0, &[], None, 0, true);
+        t.ctex(0, None);
+        t.walk(41);
+        t.ptex(&[(Rcpt::Tex(1), 40_000)], P11, &SAP, 0, &[], None, 0, true);
+        t.ctex(0, Some(0));
+        t.walk(45);
+        t.ptex(&[(Rcpt::Tex(1), 40_000)], P11, &SAP, 0, &[], None, 0, false);
+        t.recv(Pool::Sapling, 70_000);
+        t.catch_up();
+        t.ptex(&[(Rcpt::Tex(1), 40_000)], P11, &SAP, 0, &[], None, 0, true);
+        let tip = t.wtip();
+        t.ctex(0, Some(tip)); // below the target: refused
+    }
+
+    // F: coins. The first step may draw on the account's coins (any address / a list), alone or next to notes; coins of
+    // the other account, of an unlisted address, unconfirmed or locked ones never
+    {
+        id += 1;
+        let mut t = T::new(out, id, false, json!("xF coins as inputs of the first step"));
+        t.prelude(4);
+        t.recv(Pool::Sapling, 60_000);
+        t.catch_up();
+        let mut cs = vec![];
+        for (ad, v, dh) in [(1u32, 40_000u64, 1u32), (2, 90_000, 1), (3, 70_000, 1), (1, 30_000, 0), (3, 5_000, 1)] {
+            let c = t.cw.new_utxo_at(&mut t.r.rng, ad, v);
+            let h = t.wtip() - dh;
+            t.utxo(c, Some(h));
+            cs.push(c);
+        }
+        let none: [ShieldedPool; 0] = [];
+        for amount in [10_000u64, 60_000, 95_000, 125_000, 180_000, 400_000] {
+            t.ptex(&[(Rcpt::Tex(1), amount)], ZC, &none, 1, &[], None, 0, false); // coins only
+            t.ptex(&[(Rcpt::Tex(1), amount)], ZC, &SAP, 1, &[], None, 0, false); // coins and notes
+            t.ptex(&[(Rcpt::Tex(1), amount)], (1, 2, false), &SAP, 2, &[3], None, 0, false); // listed address, confirmations
+        }
+        // a list naming the other account's address: its 90 000 coin is not account 1's - only address 3's 70 000 coin is
+        t.ptex(&[(Rcpt::Tex(1), 80_000)], ZC, &none, 2, &[2, 3], None, 0, false);
+        t.ptex(&[(Rcpt::Tex(1), 50_000)], ZC, &none, 2, &[2, 3], None, 0, false);
+        t.ptex(&[(Rcpt::Tex(1), 80_000)], ZC, &SAP, 2, &[2], None, 0, false); // notes only, then
+        t.ptex(&[(Rcpt::Tex(1), 30_000), (Rcpt::Tex(2), 30_000)], ZC, &none, 1, &[], Some((0, 3)), 0, true); // locks its coins
+        t.ptex(&[(Rcpt::Tex(1), 30_000)], ZC, &none, 1, &[], Some((1, 3)), 0, false); // the next owner gets other coins or none
+        t.ptex(&[(Rcpt::Tex(1), 30_000)], ZC, &none, 1, &[], None, 1, false);
+        t.ptex(&[(Rcpt::Tex(1), 30_000)], ZC, &SAP, 1, &[], Some((1, 2)), 0, true); // notes and coins locked together
+        let tip = t.wtip();
+        t.clock(&[cs[2]], 1, tip + 4);
+        t.ptex(&[(Rcpt::Tex(1), 100_000)], ZC, &SAP, 1, &[], None, 0, false);
+        t.untex(1, 1);
+        t.untex(0, 1); // wrong owner
+        t.ptex(&[(Rcpt::Tex(1), 100_000)], ZC, &SAP, 1, &[], None, 0, false);
+    }
+}
+
+/// one request of a random history: recipients and amounts relative to what the wallet holds
+fn random_request(t: &mut T) -> Vec<(Rcpt, u64)> {
+    let bal = t.shielded_balance();
+    let rng = &mut t.r.rng;
+    let amount: u64 = match rng.gen_range(0..9) {
+        0 => 1_000,
+        1 => 12_000,
+        2 => bal / 4 + 1,
+        3 => bal / 2 + 1,
+        4 => bal.saturating_sub(20_000).max(1),
+        5 => bal.saturating_sub(35_000).max(1),
+        6 => bal + 1,
+        7 => 25_000,
+        _ => 60_000,
+    };
+    let tex = if rng.gen_bool(0.5) { Rcpt::Tex(1) } else { Rcpt::Tex(2) };
+    let other = |r: Rcpt| if r == Rcpt::Tex(1) { Rcpt::Tex(2) } else { Rcpt::Tex(1) };
+    let half = (amount / 2).max(1);
+    match rng.gen_range(0..100) {
+        0..=44 => vec![(tex, amount)],
+        45..=59 => vec![(tex, half), (other(tex), amount - half + 1)],
+        60..=71 => vec![(tex, half), (Rcpt::Zs, amount - half + 1)],
+        72..=76 => vec![(tex, half), (Rcpt::T, amount - half + 1)],
+        77..=80 => vec![(Rcpt::Zs, half), (tex, amount - half + 1)],
+        81..=83 => vec![(tex, half), (Rcpt::Ua, amount - half + 1)],
+        84..=91 => vec![(Rcpt::Zs, amount)],
+        92..=95 => vec![(Rcpt::T, amount)],
+        _ => vec![(Rcpt::Ua, amount)],
+    }
+}
+
+fn tex_op(t: &mut T) {
+    match t.r.rng.gen_range(0..100) {
+        0..=44 => {
+            if t.r.rng.gen_bool(0.7) {
+                t.catch_up();
+            }
+            let pays = random_request(t);
+            let pol = *[P11, P11, (1, 2, false), (1, 3, false), (3, 10, false), (2, 5, false), ZC].choose(&mut t.r.rng).unwrap();
+            let (pools, tp): (&[ShieldedPool], u32) = match t.r.rng.gen_range(0..20) {
+                0..=8 => (&SAP, 0),
+                9..=14 => (&ALL_POOLS, 0),
+                15 => (&ALL_POOLS[1..2], 0),
+                16 => (&SAP, 1),
+                17 => (&ALL_POOLS, 2),
+                18 => (&ALL_POOLS, 1),
+                _ => (&[], 1),
+            };
+            // (a list may name an address of the OTHER account: its coins are not the requested account's)
+            let ads: Vec<u32> = match t.r.rng.gen_range(0..4) { 0 => vec![1], 1 => vec![1, 3], 2 => vec![1, 2, 3], _ => vec![2, 3] };
+            let lock = if t.r.rng.gen_bool(0.4) { Some((t.r.rng.gen_range(0..2usize), *[0u32, 1, 3, 20].choose(&mut t.r.rng).unwrap())) } else { None };
+            let lpol = match t.r.rng.gen_range(0..10) { 0..=5 => 0, 6..=7 => 1, _ => 2 };
+            let keep = t.r.rng.gen_bool(0.75);
+            t.ptex(&pays, pol, pools, tp, &ads, lock, lpol, keep);
+        }
+        45..=59 => {
+            // create a kept proposal (only those without Orchard parts and without coins, see KeptTex)
+            let Some(i) = t.ktex.iter().position(|k| k.creatable) else { return };
+            let target = u32::from(BlockHeight::from(t.ktex[i].p.min_target_height()));
+            let expiry = match t.r.rng.gen_range(0..10) { 0..=4 => None, 5 => Some(target), 6..=7 => Some(target + 2), 8 => Some(target + 12), _ => Some(0) };
+            t.ctex(i, expiry);
+        }
+        60..=73 => {
+            // the environment mines: a first (or single) transaction, a second one whose first is on the chain, or a pair
+            // in one block; the wallet learns of it by scanning / a status update, in either order, or not yet
+            let how = t.r.rng.gen_range(0..10);
+            let mut mined: Vec<u32> = vec![];
+            if how < 4 {
+                if let Some(ct) = t.mine_created() {
+                    mined.push(ct);
+                }
+            } else if how < 8 {
+                if let Some(c2) = t.pick_second(None) {
+                    t.r.block(&[], &[(c2.abs.clone(), c2.ctx.clone())], true);
+                    t.chk();
+                    mined.push(SHARED_BASE + c2.abs.uid);
+                }
+            } else if let Some(c1) = t.r.pick_created() {
+                let mut txs = vec![(c1.abs.clone(), c1.ctx.clone())];
+                mined.push(SHARED_BASE + c1.abs.uid);
+                if let Some(c2) = t.pick_second(Some(c1.abs.uid)).filter(|c2| t.seconds.iter().any(|(f, c)| *f == c1.abs.uid && c.abs.uid == c2.abs.uid)) {
+                    mined.push(SHARED_BASE + c2.abs.uid);
+                    txs.push((c2.abs.clone(), c2.ctx.clone()));
+                }
+                t.r.block(&[], &txs, true);
+                t.chk();
+            }
+            if mined.is_empty() {
+                return;
+            }
+            if t.r.rng.gen_bool(0.5) {
+                mined.reverse();
+            }
+            match t.r.rng.gen_range(0..5) {
+                0 => { for ct in &mined { t.report_mined(*ct); } }
+                1 => { t.catch_up(); for ct in &mined { t.report_mined(*ct); } }
+                2 => { for ct in &mined { t.report_mined(*ct); } t.catch_up(); }
+                3 => { t.catch_up(); }
+                _ => {}
+            }
+        }
+        74..=78 => {
+            let k = *[1u32, 2, 3, 6, 41].choose(&mut t.r.rng).unwrap();
+            t.walk(k);
+        }
+        79..=84 => {
+            // direct locks on notes / coins
+            if t.r.rng.gen_bool(0.6) {
+                let known: Vec<u32> = t.r.post()["notes"].as_array().unwrap().iter().map(|n| n["n"].as_i64().unwrap()).filter(|n| *n > 0).map(|n| n as u32).collect();
+                if known.is_empty() {
+                    return;
+                }
+                let k = t.r.rng.gen_range(1..=known.len().min(3));
+                let picks: Vec<u32> = known.choose_multiple(&mut t.r.rng, k).copied().collect();
+                let o = t.r.rng.gen_range(0..2usize);
+                let exp = t.wtip() + *[0u32, 1, 2, 5, 30].choose(&mut t.r.rng).unwrap();
+                t.lock_notes(&picks, o, exp);
+            } else {
+                let known: Vec<u32> = t.cw.coins.keys().copied().filter(|c| t.cw.wallet_knows_coin(&t.r.w, *c)).collect();
+                if known.is_empty() {
+                    return;
+                }
+                let k = t.r.rng.gen_range(1..=known.len().min(3));
+                let picks: Vec<u32> = known.choose_multiple(&mut t.r.rng, k).copied().collect();
+                let o = t.r.rng.gen_range(0..2usize);
+                let exp = t.wtip() + *[0u32, 1, 2, 5, 30].choose(&mut t.r.rng).unwrap();
+                t.clock(&picks, o, exp);
+            }
+        }
+        85..=90 => {
+            if t.ktex.is_empty() {
+                return;
+            }
+            let i = t.r.rng.gen_range(0..t.ktex.len());
+            let o = t.ktex[i].locker.unwrap_or(0);
+            let by = if t.r.rng.gen_bool(0.7) { o } else { 1 - o };
+            t.untex(i, by);
+        }
+        91..=93 => {
+            let a = t.r.rng.gen_range(1..=2u32);
+            t.cclear(a);
+        }
+        _ => {
+            // other proposals competing for the coins (never created here)
+            let ads: Vec<u32> = match t.r.rng.gen_range(0..4) { 0 => vec![1], 1 => vec![1, 3], 2 => vec![3], _ => vec![1, 2, 3] };
+            let lock = if t.r.rng.gen_bool(0.4) { Some((t.r.rng.gen_range(0..2usize), *[1u32, 3, 20].choose(&mut t.r.rng).unwrap())) } else { None };
+            if t.r.rng.gen_bool(0.5) {
+                t.pshield(&ads, 1, ZC, 0, lock, 0, false);
+            } else {
+                t.ptrans(1, None, ZC, 25_000, lock, 0);
+            }
+        }
+    }
+}
+
+fn tex_history(t: &mut T, ops: usize) {
+    let mut wk = Walk { undelivered: vec![], unstored: vec![], last_from: t.r.chain.base + 1 };
+    t.prelude(3);
+    for op_i in 0..ops {
+        if t.r.aborted {
+            return;
+        }
+        if op_i > 0 && op_i % 60 == 0 {
+            t.r.catch_up_and_fresh();
+            t.chk();
+            continue;
+        }
+        match t.r.rng.gen_range(0..100) {
+            // funds: Sapling notes of account 1 (what the created pairs spend), now and then Orchard, a few coins
+            0..=13 => {
+                let v = match t.r.rng.gen_range(0..8) { 0 => 5_001, 1 => 9_000, _ => 30_000 + 1_000 * t.r.rng.gen_range(0..300) };
+                match t.r.rng.gen_range(0..10) {
+                    0..=6 => t.recv(Pool::Sapling, v),
+                    7 => t.recv(Pool::Orchard, v),
+                    _ => {
+                        if t.r.w.tip().is_none() {
+                            t.tip_top();
+                        }
+                        let ad = *[1u32, 1, 3, 2].choose(&mut t.r.rng).unwrap();
+                        let c = t.cw.new_utxo_at(&mut t.r.rng, ad, v);
+                        let tip = t.wtip();
+                        let h = tip.saturating_sub(*[0u32, 0, 1, 2, 9].choose(&mut t.r.rng).unwrap()).max(t.r.chain.base + 1);
+                        t.utxo(c, Some(h));
+                    }
+                }
+            }
+            14..=21 => coin_op(t, &mut wk),
+            22..=37 => shielded_op(t, &mut wk, false, true),
+            _ => tex_op(t),
+        }
+    }
+    if !t.r.aborted {
+        t.r.catch_up_and_fresh();
+        t.chk();
+    }
+}
+
 fn main() {
     quiet_panics();
     let args: Vec<String> = std::env::args().collect();
@@ -1229,6 +2147,17 @@ fn main() {
         conflict_scenario(&mut out);
     } else if args[2] == "shield-scenarios" {
         shield_scenarios(&mut out);
+    } else if args[2] == "tex-scenarios" {
+        tex_scenarios(&mut out);
+    } else if args[2] == "tex" {
+        let histories: usize = args[3].parse().unwrap();
+        let ops: usize = args[4].parse().unwrap();
+        let ironwood = args.get(5).map(|s| s == "ironwood").unwrap_or(false);
+        let seed = seed_from_env();
+        for hist in 0..histories {
+            let mut t = T::new(&mut out, seed.wrapping_mul(1_000_003).wrapping_add(11_000 + hist as u64), ironwood, json!(format!("x{hist}")));
+            tex_history(&mut t, ops);
+        }
     } else if args[2] == "shield" {
         let histories: usize = args[3].parse().unwrap();
         let ops: usize = args[4].parse().unwrap();
